@@ -334,6 +334,9 @@ def model_run(runner, requests, procs=16, timeout=900):
         for idx, lines in ex.map(work, [s for s in shards if s]):
             for i, line in zip(idx, lines):
                 line = line.strip()
+                if requests[i][0] in ("stdtexts", "msotexts"):
+                    out[i] = None if not line.startswith("T") else [bytes.fromhex(x).decode("utf8", "replace") for x in line[1:].split(",") if x != "" or line == "T"]
+                    continue
                 if requests[i][0] in ("lex", "check", "merge"):
                     out[i] = line
                     continue
